@@ -655,6 +655,44 @@ class HDF5FileSources(Contract):
                 if x.get('kind') == 'IntegerLiteral':
                     names.add(x.get('value'))
             ob(f'member.{m}', all(t in names for t in tokens), f'{m} is initialised as {meaning} (tokens {tokens}; found {sorted(n for n in names if n)[:8]})')
+        # (1b) the two row lengths that other code relies on, evaluated (not only token-matched): with a field given, _maxn is HALF
+        # THE FIELD's transform length -- append(ef) copies _maxn samples out of each spectrum row of ef->getNMax() samples (C17) and
+        # the frequency axis written next to it is the field's (C10); with an impedance given, _impSize is half ITS length
+        try:
+            from vf.unit import bind_param
+            from vf.state import State as _State
+            ex2 = Exec(tu, ctor, 'HDF5File::HDF5File[sizes]')
+            st2 = _State()
+            for i_, p_ in enumerate(params(ctor)):
+                bind_param(ex2, st2, p_, i_)
+            NM, NF = z3.Int('ef.getNMax'), z3.Int('imp.nFreqs')
+            st2.assume(And(NM >= 0, NM < 2 ** 31, NF >= 0, NF < 2 ** 31))      # transform lengths fit the 32-bit members (padded lengths are uint32 in main)
+            U64_ = parse_type_str('unsigned long')
+            ex2.calls = {'getNMax': lambda ex_, n_, st_, objn_, argn_, this_override=None: IntV(NM, U64_),
+                         'nFreqs': lambda ex_, n_, st_, objn_, argn_, this_override=None: IntV(NF, U64_)}
+            ef_null = imp_null = None
+            for p_ in params(ctor):
+                v_ = st2.env.get(p_['id'])
+                if p_.get('name') == 'ef' and isinstance(v_, ObjRef):
+                    ef_null = z3.Bool('ef==null')
+                    st2.env[p_['id']] = ObjRef(v_.name, v_.cls, null=ef_null)
+                if p_.get('name') == 'imp' and isinstance(v_, ObjRef):
+                    imp_null = z3.Bool('imp==null')
+                    st2.env[p_['id']] = ObjRef(v_.name, v_.cls, null=imp_null)
+            vals = {}
+            for m in ('_maxn', '_impSize'):
+                e_ = inits[m]['inner'][-1] if inits[m].get('inner') else None
+                vals[m] = ex2.ev(e_, st2)
+            if ef_null is None or imp_null is None:
+                raise ExtractionError('HDF5File constructor: parameters ef / imp not found')
+            ex.obls.append(Obligation('HDF5File#extent.member._maxn.is_half_the_fields_transform_length', {'C10', 'C17'}, list(st2.pc),
+                                      Implies(Not(ef_null), vals['_maxn'].t == NM / 2), 'postcondition', None,
+                                      'whenever a field is given, _maxn == ef->getNMax()/2 (whatever else is given)'))
+            ex.obls.append(Obligation('HDF5File#extent.member._impSize.is_half_the_impedance_length', {'C10', 'C17'}, list(st2.pc),
+                                      Implies(Not(imp_null), vals['_impSize'].t == NF / 2), 'postcondition', None,
+                                      'whenever an impedance is given, _impSize == imp->nFreqs()/2'))
+        except ExtractionError as e_:
+            raise ExtractionError(f'HDF5File constructor: initialisers of _maxn / _impSize could not be evaluated ({e_})')
         # (2) dims of every dataset, from the first braced list of its _makeDatasetInfo call
         dims = {}
         maxd = {}
